@@ -578,6 +578,12 @@ class Interp:
                     for (t, v) in ins.ops:
                         if v[0] == 'local' and t[0] == 'int' and v[1] not in inside:
                             out.add(v[1])
+        # loop bounds: live-in integers compared in the head block (a zero bound means the body never runs)
+        for ins in fn.blocks[lp['head']].instrs:
+            if ins.op == 'icmp':
+                for (t, v) in ins.ops:
+                    if v[0] == 'local' and t[0] == 'int' and v[1] not in inside:
+                        out.add(v[1])
         fi[key] = out
         return out
 
